@@ -274,11 +274,11 @@ impl Node {
         out.clear();
         out.push(s.tag);
         out.extend_from_slice(&s.num_discarded_bytes.to_le_bytes());
-        out.push(s.n);
+        out.extend_from_slice(&s.n.to_le_bytes());
         out.extend_from_slice(&s.payload);
         out.extend_from_slice(&(s.raw_msg_len as u64).to_le_bytes());
         out.extend_from_slice(&s.crc.to_le_bytes());
-        out.push(s.zero_cache);
+        out.extend_from_slice(&s.zero_cache.to_le_bytes());
         out.extend_from_slice(&(s.buf.len() as u64).to_le_bytes());
         out.extend_from_slice(&s.buf);
         out.push(self.mon.in_frame as u8);
